@@ -69,14 +69,23 @@ def gen_plan(seed: int, tier: str) -> dict:
         elif x < 0.7:
             a, i = r.choice(wo)
             target = r.choice(SIZES + [r.randrange(1, 5200)])
-            # request = ~143 bytes of line+headers+json envelope; aim the TOTAL at the boundary
-            base = 118 + len(str(a)) + len(str(i)) + len(str(max(1, target)))
-            strlen = max(0, target - base + r.choice([-2, -1, 0, 0, 1, 2]))
+            # aim the TOTAL serialized request (request line + headers + JSON) exactly at / one off the boundary
+            want = target + r.choice([-1, 0, 0, 0, 1])
+            strlen = max(0, want - put_request_len(a, i, 0))
+            for _ in range(4):  # the Content-Length digits move with the body length
+                strlen = max(0, strlen + want - put_request_len(a, i, strlen))
             ops.append({"op": "put", "items": [[a, i, "w" * strlen]], "t": t})
         else:
             ops.append({"op": "event", "n": r.choice([1, 1, 2, 3]), "ids": [[1, 10]], "pad": r.choice([0, 0, 900, 1024, 2048, 3000]), "t": t})
     return {"mode": "session", "profile": profile, "ops": ops, "listeners": {"L0": {}, "L1": {}}, "heal_at": t + 35.0, "end_at": t + 45.0,
             "tag_reads": False, "check_values": True, "allow_other_exceptions": False, "no_liveness": True}
+
+
+def put_request_len(aid: int, iid: int, strlen: int, host: str = "10.0.0.1") -> int:
+    """length of the canonical PUT /characteristics request writing one string of strlen ASCII characters"""
+    body = len('{"characteristics":[{"aid":%d,"iid":%d,"value":""}]}' % (aid, iid)) + strlen
+    head = f"PUT /characteristics HTTP/1.1\r\nHost: {host}\r\nContent-Length: {body}\r\nContent-Type: application/hap+json\r\n\r\n"
+    return len(head) + body
 
 
 def gen_direct(seed: int, r: random.Random, tier: str) -> dict:
